@@ -8,6 +8,7 @@
 import PsutilModel.Base.Proto
 import PsutilModel.Model.C06Gen
 import PsutilModel.Spec.C06
+import PsutilModel.Spec.C06Ext
 open Lean Psutil Psutil.Proto Psutil.C06
 
 def natOfInt (what : String) (i : Int) : R Nat :=
@@ -108,6 +109,41 @@ def parseTmap (j : Json) : R (List (Int × Bytes)) :=
     | .ok #[n, p] => do pure (← asInt n, ← asBytes p)
     | _ => .error "tmap entry must be [nr, hexpath]") j
 
+
+/-! extension: /dev listing, /proc/stat world, task listing -/
+
+def parseDevEntry (j : Json) : R (Bytes × Spec.NodeKind) :=
+  match j.getArr? with
+  | .ok #[p, k, r] => do
+    let path ← asBytes p
+    let kind ← asStr k
+    let rdev ← asNat r
+    if kind == "vanished" then pure (path, Spec.NodeKind.vanished)
+    else if kind == "chr" then pure (path, Spec.NodeKind.chr rdev)
+    else if kind == "other" then pure (path, Spec.NodeKind.other rdev)
+    else .error s!"unknown node kind {kind}"
+  | _ => .error "dev entry must be [hexpath, kind, rdev]"
+
+/-- `os.stat` of a node (same mapping as `statOf` in Proofs/C06Ext.lean) -/
+def statOfD : Spec.NodeKind → StatOut
+  | .vanished => .notFound
+  | .chr r => .node true r
+  | .other r => .node false r
+
+def osViewD (l : List (Bytes × Spec.NodeKind)) : List (Bytes × StatOut) := l.map fun e => (e.1, statOfD e.2)
+
+/-- the acceptable answers of `Spec.TerminalOk`: every path of a character device with that number -/
+def terminalAnswers (l : List (Bytes × Spec.NodeKind)) (nr : Nat) : List Bytes :=
+  l.filterMap fun e => if e.2 = Spec.NodeKind.chr nr then some e.1 else none
+
+def parseProcStatW (j : Json) : R Spec.ProcStatW := do
+  pure { pre := ← listF asBytes j "pre", btime := ← natF j "btime", post := ← listF asBytes j "post" }
+
+def wfProcStatB (w : Spec.ProcStatW) : Bool :=
+  (w.pre ++ w.post).all (fun l => !l.contains 10) && w.pre.all (fun l => !Spec.keyBtime.isPrefixOf l)
+
+def jAnyOf (l : List Bytes) : Json := jObj [("any_of", jList jBytes l)]
+
 /-- `{"rec": …}` or `{"raw": hex}` -/
 def recOrRaw (parse : Json → R α) (j : Json) : R (Sum α Bytes) :=
   match j.getObjVal? "rec" with
@@ -120,27 +156,56 @@ def handleProc (j : Json) : R Json := do
   let tmap ← field j "tmap" >>= parseTmap
   let stat ← field j "stat" >>= recOrRaw parseStatRec
   let status ← optF (recOrRaw parseStatusRec) j "status"
-  let threads ← listF (fun t => do
-      match ← recOrRaw parseStatRec t with
-      | .inl r => pure (r.pid, Sum.inl r)
-      | .inr b => do pure (← natF t "tid", Sum.inr b)) j "threads"
+  let threadsAll ← listF (fun t => do
+      match t.getObjVal? "vanished" with
+      | .ok _ => do pure (← natF t "tid", (none : Option (Sum Spec.StatRec Bytes)))
+      | .error _ =>
+        match ← recOrRaw parseStatRec t with
+        | .inl r => pure (r.pid, some (Sum.inl r))
+        | .inr b => do pure (← natF t "tid", some (Sum.inr b))) j "threads"
+  let threads : List (Nat × Sum Spec.StatRec Bytes) := threadsAll.filterMap fun (tid, o) => o.map fun v => (tid, v)
+  let dev ← optF (asList parseDevEntry) j "dev"
+  let dev2 ← optF (asList parseDevEntry) j "dev2"
+  let procstat ← optF parseProcStatW j "procstat"
+  let procstat2 ← optF parseProcStatW j "procstat2"
+  let listing ← optF (asList asNat) j "listing"
+  let alive := (← optF asBool j "alive").getD true
   -- files
   let statBytes := match stat with | .inl r => Spec.renderStat r | .inr b => b
   let statusBytes := status.map fun s => match s with | .inl r => Spec.renderStatus r | .inr b => b
   let thrFiles : List (Nat × Bytes) := threads.map fun (tid, t) =>
     (tid, match t with | .inl r => Spec.renderStat r | .inr b => b)
   let files := jObj [("stat", jBytes statBytes), ("status", jOpt jBytes statusBytes),
-    ("threads", jList (fun (p : Nat × Bytes) => Json.arr #[jNat p.1, jBytes p.2]) thrFiles)]
+    ("threads", jList (fun (p : Nat × Bytes) => Json.arr #[jNat p.1, jBytes p.2]) thrFiles),
+    ("procstat", jOpt jBytes (procstat.map Spec.renderProcStat)),
+    ("procstat2", jOpt jBytes (procstat2.map Spec.renderProcStat))]
   -- model
   let mStat : List (String × Json) := [
     ("name", jRes jBytes (name cfg statBytes)),
     ("ppid", jRes jInt (ppid cfg statBytes)),
     ("status", jRes jStatusOut (C06.status cfg statBytes)),
     ("cpu_times", jRes jCpu (cpuTimes cfg tck statBytes)),
-    ("create_time", jRes jRat (createTime cfg tck (btime : Rat) statBytes)),
+    ("create_time", jRes jRat (match procstat with
+      | some w => (createTimeCall cfg xcfg tck none (Spec.renderProcStat w) statBytes).1
+      | none => createTime cfg tck (btime : Rat) statBytes)),
     ("cpu_num", jRes jInt (cpuNum cfg statBytes)),
-    ("terminal", jRes (jOpt jBytes) (terminal cfg tmap statBytes)),
-    ("threads", jRes (jList jThread) (C06.threads cfg tck thrFiles))]
+    ("terminal", jRes (jOpt jBytes) (match dev with
+      | some l => (terminalCall cfg xcfg none (osViewD l) statBytes).1
+      | none => terminal cfg tmap statBytes)),
+    ("threads", jRes (jList jThread) (match listing with
+      | some ls => threadsCall cfg xcfg tck ls
+          (fun t => match thrFiles.lookup t with | some b => TaskFile.content b | none => TaskFile.vanished) alive
+      | none => C06.threads cfg tck thrFiles))]
+    ++ (match procstat, procstat2 with
+      | some w, some w2 =>
+        let c1 := (createTimeCall cfg xcfg tck none (Spec.renderProcStat w) statBytes).2
+        [("create_time_pinned", jRes jRat (createTimeCall cfg xcfg tck c1 (Spec.renderProcStat w2) statBytes).1)]
+      | _, _ => [])
+    ++ (match dev, dev2 with
+      | some l, some l2 =>
+        let c1 := (terminalCall cfg xcfg none (osViewD l) statBytes).2
+        [("terminal_stale", jRes (jOpt jBytes) (terminalCall cfg xcfg c1 (osViewD l2) statBytes).1)]
+      | _, _ => [])
   let mStatus : List (String × Json) := match statusBytes with
     | none => []
     | some sb => [
@@ -155,9 +220,19 @@ def handleProc (j : Json) : R Json := do
         ("ppid", jOk (jInt (Spec.ppid r))),
         ("status", jOk (Json.str (Spec.status r))),
         ("cpu_times", jOk (jCpuV (Spec.cpuTimes tck r))),
-        ("create_time", jOk (jRat (Spec.createTime tck (btime : Rat) r))),
-        ("cpu_num", jOk (jInt (Spec.cpuNum r))),
-        ("terminal", jOk (jOpt jBytes (Spec.terminal tmap r)))]
+        ("cpu_num", jOk (jInt (Spec.cpuNum r)))]
+        ++ (match procstat with
+          | some w => if wfProcStatB w then [("create_time", jOk (jRat (Spec.createTime tck (w.btime : Rat) r)))]
+              ++ (if procstat2.isSome && w.btime != 0 then
+                    [("create_time_pinned", jOk (jRat (Spec.createTime tck (w.btime : Rat) r)))] else [])
+            else []
+          | none => [("create_time", jOk (jRat (Spec.createTime tck (btime : Rat) r)))])
+        ++ (match dev with
+          | some l => [("terminal", jOk (jAnyOf (terminalAnswers l r.ttyNr)))]
+          | none => [("terminal", jOk (jOpt jBytes (Spec.terminal tmap r)))])
+        ++ (match dev2 with
+          | some l2 => [("terminal_stale", jOk (jAnyOf (terminalAnswers l2 r.ttyNr)))]
+          | none => [])
       else []
     | .inr _ => []
   let thrRecs : Option (List Spec.StatRec) := threads.mapM fun (_, t) =>
@@ -165,7 +240,15 @@ def handleProc (j : Json) : R Json := do
     | .inl r => if Spec.isLetter r.state then some r else none
     | .inr _ => none
   let sThr : List (String × Json) := match thrRecs with
-    | some rs => [("threads", jOk (jList jThreadV (rs.map (Spec.threadView tck))))]
+    | some rs =>
+      (match listing with
+      | none => [("threads", jOk (jList jThreadV (rs.map (Spec.threadView tck))))]
+      | some ls =>
+        let order := ls.mergeSort fun a b => Spec.strLE (renderDec a) (renderDec b)
+        let recs : Nat → Option Spec.StatRec := fun t => rs.find? (fun r => r.pid == t)
+        let anyVanished := ls.any fun t => (recs t).isNone
+        if anyVanished && !alive then [("threads", Proto.exc "NoSuchProcess")]
+        else [("threads", jOk (jList jThreadV (Spec.threadsValue tck order recs)))])
     | none => []
   let sStatus : List (String × Json) := match status with
     | some (.inl r) =>
